@@ -1,11 +1,13 @@
 """C01 — field bits occupy the documented physical positions."""
-import json, os
+import json, os, random
 import vlib
-from checks import ops_common
+from checks import ops_common, gen_common
 
 RULE = ("exhaustive geometry for the chosen buffer lengths: every in-bounds (s,e) with e-s <= carrier width x 4 "
         "order combinations x 10 carriers, random data/value per point, plus walking-one patterns over every "
-        "buffer bit / value bit for lengths <= 3 (4 thorough); real device_driver::ops vs extracted Coq model; "
+        "buffer bit / value bit for lengths <= 3 (4 thorough); real device_driver::ops vs extracted Coq model; plus the "
+        "generated level: 10 (thorough 60) compiled definitions with every (byte order, bit order) choice at object and global "
+        "level and whole/partial-byte sizes, every getter/setter on random bytes vs Layout.v on the declared orders; "
         "distinct = (op, byte order, bit order, carrier, len, s mod 8, e mod 8, bytes spanned) classes")
 
 
@@ -28,6 +30,25 @@ def run(ctx):
         vlib.violation(ctx, {"broken": info["reason"], "theorem": "props/C01.v",
                              "note": "proof obligation no longer checks; correspondence found no disagreement"},
                        no_input=True)
+    # ---- generated level: the positions as reached through EMITTED accessors.  The generator picks the load/store function
+    # and the byte order it instantiates it with from (byte order, bit order) of the field set (anchor: field_set_transform.rs);
+    # definitions with every order combination, whole- and partial-byte sizes, own and global-default orders are compiled and
+    # each getter / setter is compared on random bytes with Layout.v's reading of the DECLARED orders (the phase is C06's
+    # l2_phase; here it stands for the clause "a field over bits [s,e) is read and written through exactly those positions")
+    if not diffs and info["ok"]:
+        from checks import c06
+        exe, gerr = gen_common.build_gen_runner(ctx)
+        if gerr:
+            vlib.violation(ctx, {"broken": gerr}, no_input=True)
+        else:
+            n2, d2, sample2 = c06.l2_phase(ctx, exe, random.Random(ctx.seed + 101), 10 if ctx.tier == "quick" else 60)
+            stats["generated_level_queries"] = n2
+            stats["evaluations"] += n2
+            if d2:
+                kind, what, detail, inp = d2[0]
+                vlib.violation(ctx, {"what": "generated field-set accessors do not read/write the documented positions: " + what,
+                                     "failing_input": inp or {"note": "see detail"}, "detail": detail, "disagreements": len(d2)},
+                               no_input=(inp is None))
     if ctx.tier == "thorough" and info["ok"]:
         ok, out = vlib.coqchk("C01")
         stats["coqchk"] = out.strip().splitlines()[-6:]
@@ -35,7 +56,7 @@ def run(ctx):
             vlib.violation(ctx, {"broken": "coqchk rejected the compiled proofs", "detail": out[-800:]}, no_input=True)
     vlib.write_evidence(ctx, info, {"evaluations": stats["evaluations"], "distinct_nontrivial": stats["distinct_nontrivial"],
                                     "rule": RULE, "samples": stats["samples"], "input_distribution": stats["histogram"],
-                                    "exhaustive": True, "disagreements": len(diffs), **({"coqchk": stats["coqchk"]} if "coqchk" in stats else {})},
+                                    "exhaustive": True, "generated_level_queries": stats.get("generated_level_queries", 0), "disagreements": len(diffs), **({"coqchk": stats["coqchk"]} if "coqchk" in stats else {})},
                         assumptions=["64-bit host: the DedupCast rows for 16/32-bit pointers are proved in the model but not exercised"])
 
 
